@@ -7,7 +7,10 @@ SID="$1"; TIER="${2:-quick}"; D=/verif/seeded/$SID
 [ -z "$(git -C /repo status --short)" ] || { echo "/repo has uncommitted changes"; exit 2; }
 PROP=$(python3 -c "import json;print(json.load(open('$D/meta.json'))['property'])")
 git -C /repo apply "$D/patch.diff" || exit 2
+# the check rewrites evidence/<prop>.json: keep the unchanged tree's record, a seeded run is not evidence
+cp /verif/evidence/$PROP.json /tmp/evidence_$PROP.keep 2>/dev/null
 /verif/check "$PROP" --tier "$TIER"; rc=$?
 git -C /repo checkout -- .
+[ -f /tmp/evidence_$PROP.keep ] && mv /tmp/evidence_$PROP.keep /verif/evidence/$PROP.json
 echo "seed=$SID property=$PROP exit=$rc (1 = reported, as expected for a caught seed)"
 exit 0
